@@ -2,7 +2,7 @@
    g<hexptr> get; G H I J D <hexptr> getf in five format shapes whose expansion is <ptr>
    ("%s" | pointer as format | "/%s" | "%s%s" | "%s/%d": for the model they are all
    getf on the formatted bytes); s<hexptr>=<jvtext> set; S T U V E the same five shapes of
-   setf.  See harness/drv_ptr.c. *)
+   setf; a leading 'n' on a lookup = res == NULL.  See harness/drv_ptr.c. *)
 open Model
 open Util
 
@@ -17,17 +17,27 @@ let id_of_path (path : (z list, z) sum list) node =
             | Inl k -> ".k" ^ hex_of_bytes k
             | Inr i -> ".i" ^ string_of_z i) path)
 
-let parse_op s =
+(* an op may be prefixed with 'n': the lookup is called with res == NULL *)
+let parse_op s0 =
+  let with_res = s0.[0] <> 'n' in
+  let s = if with_res then s0 else String.sub s0 1 (String.length s0 - 1) in
   let body = String.sub s 1 (String.length s - 1) in
   match s.[0] with
-  | 'g' -> OGet (bytes_of_hex body)
-  | 'G' | 'H' | 'I' | 'J' | 'D' -> OGetf (Some (bytes_of_hex body))
+  | 'g' -> OGet (bytes_of_hex body, with_res)
+  | 'G' | 'H' | 'I' | 'J' | 'D' -> OGetf (Some (bytes_of_hex body), with_res)
   | 's' | 'S' | 'T' | 'U' | 'V' | 'E' ->
     let i = String.index body '=' in
     let p = bytes_of_hex (String.sub body 0 i) in
     let v = Jvtext.jv_of_string (String.sub body (i + 1) (String.length body - i - 1)) in
     if s.[0] = 's' then OSet (p, v) else OSetf (Some p, v)
   | _ -> failwith "ptr op"
+
+(* third token: the caller's result variable after a lookup (preset to a sentinel before it):
+   the stored node | kept | noarg (res == NULL); the root handle after a set: same | new *)
+let res_token = function
+  | None -> "noarg"
+  | Some RPreset -> "kept"
+  | Some (RNode (path, node)) -> id_of_path path node
 
 let run line =
   match split_on ' ' line with
@@ -38,10 +48,10 @@ let run line =
       let (t', o) = ptr_step al !t (parse_op s) in
       t := t';
       let head = match o with
-        | ObsGet (GOk (path, node)) -> "0 0 " ^ id_of_path path node
-        | ObsGet (GErr e) -> "-1 " ^ errno_name e ^ " -"
-        | ObsSet None -> "0 0 -"
-        | ObsSet (Some e) -> "-1 " ^ errno_name e ^ " -" in
+        | ObsGet (GOk _, r) -> "0 0 " ^ res_token r
+        | ObsGet (GErr e, r) -> "-1 " ^ errno_name e ^ " " ^ res_token r
+        | ObsSet (None, nw) -> "0 0 " ^ (if nw then "new" else "same")
+        | ObsSet (Some e, nw) -> "-1 " ^ errno_name e ^ " " ^ (if nw then "new" else "same") in
       out := (head ^ " " ^ Jvtext.string_of_jv t') :: !out) (split_on ';' ops);
     String.concat " | " (List.rev ("END 0" :: !out))
   | _ -> failwith "ptr line"
